@@ -4,6 +4,7 @@ CONSTANTS
   M = 2
   MaxR = 1
   OnceSetup = TRUE
+  CloseOn = "exit"
 INVARIANTS NoLeakOnPartialClose
 PROPERTIES Settles
 CHECK_DEADLOCK FALSE
